@@ -43,6 +43,10 @@ pub struct GenCfg {
     pub hostile_text: bool,
     /// equal item values inside one list and across lists (hash-order sensitive: C03 only)
     pub list_ties: bool,
+    /// prefix of every identifier (several generated programs can be merged into one: C10)
+    pub prefix: String,
+    /// TURNS_SINCE in conditions (the turn index is shared by all flows)
+    pub turns: bool,
     /// keep swarm() from toggling
     pub fixed: bool,
 }
@@ -77,6 +81,8 @@ impl GenCfg {
             external_heavy: false,
             hostile_text: false,
             list_ties: false,
+            prefix: String::new(),
+            turns: true,
             fixed: false,
         }
     }
@@ -147,7 +153,7 @@ const HOSTILE: &[&str] = &["\"quoted\"", "back\\\\slash", "tab\there", "caf\u{e9
 impl<'a> G<'a> {
     fn m(&mut self) -> String {
         self.marker += 1;
-        format!("K{}L{}", self.knot, self.marker)
+        format!("{}K{}L{}", self.cfg.prefix, self.knot, self.marker)
     }
 
     fn line(&mut self, indent: usize, s: &str) {
@@ -223,7 +229,7 @@ impl<'a> G<'a> {
                 let _ = &l.0;
                 if self.rng.chance(1, 2) { format!("{lv} ? {it}") } else { format!("{lv} !? {it}") }
             }
-            4 if self.cfg.read_counts && !self.knots.is_empty() => {
+            4 if self.cfg.read_counts && self.cfg.turns && !self.knots.is_empty() => {
                 format!("TURNS_SINCE(-> {}) >= {}", self.rng.pick(&self.knots), self.rng.range(0, 2))
             }
             5 => format!("CHOICE_COUNT() == {}", self.rng.range(0, 2)),
@@ -724,14 +730,14 @@ pub fn render(rng: &mut Rng, cfg: &GenCfg) -> String {
     if g.cfg.globals {
         let n = 1 + g.rng.below(4);
         for i in 0..n {
-            let v = format!("gi{i}");
+            let v = format!("{}gi{i}", g.cfg.prefix);
             let init = if g.cfg.fault_prone && g.rng.chance(1, 3) { 0 } else { g.rng.range(0, 5) };
             g.line(0, &format!("VAR {v} = {init}"));
             g.ints.push(v);
         }
         let n = g.rng.below(3);
         for i in 0..n {
-            let v = format!("gb{i}");
+            let v = format!("{}gb{i}", g.cfg.prefix);
             let b = g.rng.chance(1, 2);
             g.line(0, &format!("VAR {v} = {b}"));
             g.bools.push(v);
@@ -739,19 +745,19 @@ pub fn render(rng: &mut Rng, cfg: &GenCfg) -> String {
         if g.cfg.strings {
             let n = 1 + g.rng.below(2);
             for i in 0..n {
-                let v = format!("gs{i}");
+                let v = format!("{}gs{i}", g.cfg.prefix);
                 g.line(0, &format!("VAR {v} = \"str{i}\""));
                 g.strs.push(v);
             }
         }
     }
     if g.cfg.loops {
-        g.line(0, "VAR loopc = 0");
+        g.line(0, &format!("VAR {}loopc = 0", g.cfg.prefix));
     }
     if g.cfg.consts {
         let n = 1 + g.rng.below(2);
         for i in 0..n {
-            let c = format!("CK{i}");
+            let c = format!("{}CK{i}", g.cfg.prefix);
             let v = g.rng.range(1, 9);
             g.line(0, &format!("CONST {c} = {v}"));
             g.consts.push(c);
@@ -760,9 +766,9 @@ pub fn render(rng: &mut Rng, cfg: &GenCfg) -> String {
     if g.cfg.lists {
         let nl = 1 + g.rng.below(3);
         for i in 0..nl {
-            let name = format!("L{i}");
+            let name = format!("{}L{i}", g.cfg.prefix);
             let ni = 2 + g.rng.below(3);
-            let items: Vec<String> = (0..ni).map(|k| format!("i{i}{}", (b'a' + k as u8) as char)).collect();
+            let items: Vec<String> = (0..ni).map(|k| format!("{}i{i}{}", g.cfg.prefix, (b'a' + k as u8) as char)).collect();
             // with `list_ties` items share values inside a list and across lists; otherwise every
             // item of the program has its own value (list i uses i*10+1 ..)
             let ties = g.cfg.list_ties;
@@ -787,7 +793,7 @@ pub fn render(rng: &mut Rng, cfg: &GenCfg) -> String {
         }
         let nv = 1 + g.rng.below(2);
         for i in 0..nv {
-            let v = format!("lv{i}");
+            let v = format!("{}lv{i}", g.cfg.prefix);
             // list literals in a VAR initialiser are not resolved by the repository's
             // compiler (origin-less items); only `()` and a single bare item are used here
             let a = g.rng.pick(&g.lists).clone();
@@ -803,7 +809,7 @@ pub fn render(rng: &mut Rng, cfg: &GenCfg) -> String {
     if g.cfg.externals {
         let n = 1 + g.rng.below(2);
         for i in 0..n {
-            let name = format!("ext{i}");
+            let name = format!("{}ext{i}", g.cfg.prefix);
             let argc = if g.cfg.external_heavy { 1 + g.rng.below(2) } else { g.rng.below(3) };
             let params: Vec<String> = (0..argc).map(|k| format!("p{k}")).collect();
             g.line(0, &format!("EXTERNAL {name}({})", params.join(", ")));
@@ -822,20 +828,20 @@ pub fn render(rng: &mut Rng, cfg: &GenCfg) -> String {
     }
     // names of later sections (so earlier ones can refer to them)
     let nk = g.cfg.knots.max(1);
-    let knot_names: Vec<String> = (0..nk).map(|i| format!("k{i}")).collect();
+    let knot_names: Vec<String> = (0..nk).map(|i| format!("{}k{i}", g.cfg.prefix)).collect();
     let nf = if g.cfg.functions { 1 + g.rng.below(3) } else { 0 };
     for i in 0..nf {
         let argc = g.rng.below(3);
         let prints = g.rng.chance(1, 2);
-        g.funcs.push((format!("fn{i}"), argc, prints));
+        g.funcs.push((format!("{}fn{i}", g.cfg.prefix), argc, prints));
     }
     let nt = if g.cfg.tunnels { 1 + g.rng.below(2) } else { 0 };
     for i in 0..nt {
-        g.tunnels.push(format!("tun{i}"));
+        g.tunnels.push(format!("{}tun{i}", g.cfg.prefix));
     }
     let nth = if g.cfg.threads { 1 + g.rng.below(2) } else { 0 };
     for i in 0..nth {
-        g.threads.push(format!("thr{i}"));
+        g.threads.push(format!("{}thr{i}", g.cfg.prefix));
     }
     g.knots = knot_names.clone();
 
@@ -873,8 +879,8 @@ pub fn render(rng: &mut Rng, cfg: &GenCfg) -> String {
         }
         if g.cfg.loops && i > 0 && g.rng.chance(1, 4) {
             let back = knot_names[g.rng.below(i + 1)].clone();
-            g.line(0, "{ loopc < 2:");
-            g.line(1, "~ loopc = loopc + 1");
+            g.line(0, &format!("{{ {}loopc < 2:", g.cfg.prefix));
+            g.line(1, &format!("~ {p}loopc = {p}loopc + 1", p = g.cfg.prefix));
             g.line(1, &format!("-> {back}"));
             g.line(0, "}");
         }
